@@ -152,7 +152,7 @@ def share_equal_containers(val, memo=None):
     return val
 
 
-def run_value(v, scratch, where='root', alias=False):
+def run_value(v, scratch, where='root', alias=False, share_root=False):
     import emdfile, h5py
     out = {}
     try:
@@ -175,6 +175,8 @@ def run_value(v, scratch, where='root', alias=False):
             holder = n; path = 'r/n'
     holder.metadata = emdfile.Metadata(name='m', data={'k': val})
     holder.metadata = emdfile.Metadata(name='other', data={'x': 1})
+    if share_root and holder is not root:
+        root.metadata = holder._metadata['m']        # the very same Metadata instance is held by the root as well
     try:
         with core.quiet():
             emdfile.save(p, root, mode='o')
@@ -220,7 +222,7 @@ def run_value(v, scratch, where='root', alias=False):
 def _run_one(args):
     c, scratch = args
     try:
-        return run_value(c['v'], scratch, c.get('where', 'root'), c.get('alias', False))
+        return run_value(c['v'], scratch, c.get('where', 'root'), c.get('alias', False), c.get('share_root', False))
     except BaseException:
         import traceback
         return [{'harness_error': traceback.format_exc()[-800:]}]
